@@ -445,7 +445,8 @@ def is_point_form(v):
 
 def run_fn(F, body, args, inline=None):
     dom = WeightDomain(F)
-    ex = AbsExec(F, dom, inline=inline or (lambda d: False), max_paths=512)
+    from core.absexec import same_module_inline
+    ex = AbsExec(F, dom, inline=inline or same_module_inline(F, body.rec["path"]), max_paths=512)
     frames = []
     rargs = []
     for a in args:
@@ -534,10 +535,13 @@ def rule_weight_lines(prop, repo):
     R = Rule("R-WEIGHT-LINES", "line / tangent evaluations and twist-Frobenius maps are weight-homogeneous: num and den slots of equal weight, prepared coefficients a common-factor "
              "triple, (2k,3k,k) preserved by π, π²", floor=6)
 
-    def one(name):
-        bs = [b for b in F.fn_bodies() if b.name == name and b.rec["path"].startswith("crate::pairings::")]
+    from .roles import PairingRoles
+    roles = PairingRoles(F)
+
+    def one(role):
+        bs = getattr(roles, role)
         if len(bs) != 1:
-            R.fail_closed("%s:weight:%s:anchor" % (prop, name), "%s not found uniquely" % name)
+            R.fail_closed("%s:weight:%s:anchor" % (prop, role), "no unique function in the role %s: %s" % (role, [b.rec["path"] for b in bs]))
             return None
         return bs[0]
 
@@ -546,11 +550,12 @@ def rule_weight_lines(prop, repo):
         oth = [x for x in vs if not isinstance(x, W)]
         return (not oth) and len({w.f for w in ws}) <= 1, ws
 
-    for name, args in (("eval_g_tangent", [("byref", gpoint("s")), ("byref", gpoint(None))]),
-                       ("eval_g_line", [("byref", gpoint("s1")), ("byref", gpoint("s2")), ("byref", gpoint(None))])):
-        b = one(name)
+    for role, args in (("tangent_eval", [("byref", gpoint("s")), ("byref", gpoint(None))]),
+                       ("chord_eval", [("byref", gpoint("s1")), ("byref", gpoint("s2")), ("byref", gpoint(None))])):
+        b = one(role)
         if not b:
             continue
+        name = b.name
         R.instance()
         dom, rs = run_fn(F, b, args)
         ok = len(rs) == 1
@@ -564,10 +569,11 @@ def rule_weight_lines(prop, repo):
         errs = sorted(set(dom.errors))
         R.check(ok and not errs, "%s:weight:%s" % (prop, name), "%s: numerator / denominator slots have weights %s; inhomogeneous operations %s" % (name, desc, errs[:3]), b.file_line(), b.rec["path"],
                 sample={"fn": name, "slot_weight": desc, "field_ops": dom.ops})
-    for name, args in (("g_tangent", [("byref", gpoint("s"))]), ("g_line", [("byref", gpoint("s")), ("byref", gpoint(None))])):
-        b = one(name)
+    for role, args in (("tangent_step", [("byref", gpoint("s"))]), ("chord_step", [("byref", gpoint("s")), ("byref", gpoint(None))])):
+        b = one(role)
         if not b:
             continue
+        name = b.name
         R.instance()
         dom, rs = run_fn(F, b, args)
         ok = len(rs) == 1
@@ -580,12 +586,10 @@ def rule_weight_lines(prop, repo):
         errs = sorted(set(dom.errors))
         R.check(ok and not errs, "%s:weight:%s" % (prop, name), "%s: coefficient triple has weights %s; inhomogeneous operations %s" % (name, desc, errs[:3]), b.file_line(), b.rec["path"],
                 sample={"fn": name, "triple_weight": desc})
-    for name in ("point_pi1", "point_pi2", "q_power_frobenius"):
-        b = one(name)
-        if not b:
-            continue
+    for b in list(roles.twist_frob) + list(roles.twist_frob_by):
+        name = b.name
         R.instance()
-        args = [("byref", gpoint("s"))] + ([("byref", W(form(), "const"))] if name == "q_power_frobenius" else [])
+        args = [("byref", gpoint("s"))] + ([("byref", W(form(), "const"))] if b in roles.twist_frob_by else [])
         dom, rs = run_fn(F, b, args)
         ks = []
         for v, _ in rs:
